@@ -309,7 +309,15 @@ def _get_updated_blq_statements(model, expr_dummy, f, f_dummy, eps_new):
     y = list(model.dependent_variables.keys())[0]
     f_above_lloq = _get_f_above_lloq(model, f)
     expr_above_lloq = expr_dummy.subs({f_dummy: f_above_lloq})
-    expr = f.subs({f_above_lloq: expr_above_lloq})
+    # NOTE: Only the branch for observations above LLOQ gets the error model, the
+    # likelihood of the BLQ observations depends on the prediction and SD only
+    blq_symb, _ = get_blq_symb_and_type(model)
+    expr = Expr.piecewise(
+        *(
+            (expr_above_lloq if blq_symb in cond.free_symbols else branch, cond)
+            for branch, cond in f.args
+        )
+    )
     # FIXME: Make more general
     sd = model.statements.find_assignment('SD')
     sd_new = get_sd_expr(expr_above_lloq, model.random_variables + eps_new, model.parameters)
